@@ -52,3 +52,14 @@ revert 95ddb54 C02
 revert 3813bce C05
 revert 54caa68 C05
 revert 2baf53a C07
+revert 54ac860 C03
+revert d967b9b C15
+revert 3daa3c3 C09
+revert 28e75dd C09
+revert 43717e4 C05
+revert 98d3a51 C17
+revert 25680c8 C08
+revert 2e90d21 C08
+revert 9be1db8 C08
+revert 7f9087a C08
+revert 2b52f2e C16
